@@ -74,7 +74,11 @@ func (g *c05Gen) stmt(ind string, depth int, ctrs []string, inLoop bool, sinceLo
 	}
 	if g.retOK && g.pick("ret", 5) == 0 {
 		g.nRet++
-		g.b.WriteString(ind + bn.KwReturn + " " + fmt.Sprint(1000+g.nRet) + ";\n")
+		if g.fnDecls && g.pick("bareReturn", 4) == 0 {
+			g.b.WriteString(ind + bn.KwReturn + ";\n") // the call's value is nil
+		} else {
+			g.b.WriteString(ind + bn.KwReturn + " " + fmt.Sprint(1000+g.nRet) + ";\n")
+		}
 		if ind != "  " {
 			g.deepRet = true
 		}
@@ -138,6 +142,11 @@ func (g *c05Gen) stmt(ind string, depth int, ctrs []string, inLoop bool, sinceLo
 		g.b.WriteString(ind + "}\n")
 	case 5: // block
 		g.b.WriteString(ind + "{\n")
+		if g.fnDecls && len(ctrs) > 0 && g.pick("shadow", 2) == 0 {
+			// the block has its own variable named like the counter of a surrounding loop; a jump out of the block
+			// leaves it behind
+			g.b.WriteString(ind + "  " + bn.KwVar + " " + ctrs[g.pick("shadowed", len(ctrs))] + " = 100;\n")
+		}
 		n := 1 + g.pick("n", 3)
 		for i := 0; i < n; i++ {
 			g.stmt(ind+"  ", depth-1, ctrs, inLoop, sinceLoop+1, loopNested, true)
@@ -159,6 +168,9 @@ func (g *c05Gen) stmt(ind string, depth int, ctrs []string, inLoop bool, sinceLo
 			g.stmt(ind+"  ", depth-1, append(append([]string{}, ctrs...), c), true, 0, inLoop || sinceLoop > 0 || len(ctrs) > 0, true)
 		}
 		g.b.WriteString(ind + "}\n")
+		if g.fnDecls {
+			g.b.WriteString(ind + bn.KwPrint + " [" + strings.Join(append(append([]string{}, ctrs...), c), ", ") + "];\n")
+		}
 	case 7, 8: // for, all clause combinations
 		fallthrough
 	default:
@@ -205,6 +217,9 @@ func (g *c05Gen) stmt(ind string, depth int, ctrs []string, inLoop bool, sinceLo
 			g.stmt(ind+"  ", depth-1, append(append([]string{}, ctrs...), c), true, 0, inLoop || sinceLoop > 0 || len(ctrs) > 0, true)
 		}
 		g.b.WriteString(ind + "}\n")
+		if g.fnDecls && len(ctrs) > 0 {
+			g.b.WriteString(ind + bn.KwPrint + " [" + strings.Join(ctrs, ", ") + "];\n")
+		}
 	}
 }
 
